@@ -53,18 +53,19 @@ S_COMMENT = [K("k3::S-Comment-noninterp"), K("k3::S-Comment-drop"), K("k3::S-Com
 TAL_BASIC = [K("k3::S-Define"), K("k3::S-Define-clauses"), K("k3::S-Define-tuple"), K("k3::S-Condition"), K("k3::S-Content"),
              K("k3::S-Replace"), K("k3::S-Structure"), K("k3::S-OmitTag"),
              K("k3::S-OmitTag-empty"), K("k3::S-OmitTag-selfclosing"),
-             K("k3::S-Attribute"), K("k3::S-Attribute-quotes"), K("k3::S-Attribute-dict"), K("k3::S-Attribute-dict-first"), K("k3::S-Literal"), K("k3::S-Combined"), K("k3::S-Repeat")]
+             K("k3::S-Attribute"), K("k3::S-Attribute-quotes"), K("k3::S-Attribute-default-under-target"), K("k3::S-Define-nested-same"), K("k3::S-Attribute-dict"), K("k3::S-Attribute-dict-first"), K("k3::S-Literal"), K("k3::S-Combined"), K("k3::S-Repeat")]
 
 RESERVED = [K("k3::S-Repeat-reserved"), K("k3::S-Define-reserved"), K("k3::S-Define-econtext"),
             K("k3::S-Define-tuple-reserved"), K("k3::S-Define-tuple-reserved-first"),
-            K("k3::S-Repeat-tuple-reserved")]
-S_TALES = [K("k3::S-Pipe3"), K("k3::S-Same-not-twice"), K("k3::S-Same-exists-twice"), K("k3::S-Same-string-twice"), K("k3::S-Not"), K("k3::S-Exists"), K("k3::S-LambdaScope")]
-S_INTERP = [K("k3::S-Interp-braces"), K("k3::S-Cdata-entity"), K("k3::S-Interp-text"), K("k3::S-Interp-off"), K("k3::S-Interp-lines"),
+            K("k3::S-Repeat-tuple-reserved"), K("k3::S-Define-global-reserved"),
+            K("k3::S-Define-global-tuple-reserved")]
+S_TALES = [K("k3::S-Pipe3"), K("k3::S-Pipe-prefix-middle"), K("k3::S-Same-not-twice"), K("k3::S-Same-exists-twice"), K("k3::S-Same-string-twice"), K("k3::S-Not"), K("k3::S-Exists"), K("k3::S-LambdaScope")]
+S_INTERP = [K("k3::S-Interp-braces"), K("k3::S-Cdata-entity"), K("k3::S-Cdata-twice"), K("k3::S-Interp-text"), K("k3::S-Interp-off"), K("k3::S-Interp-lines"),
             K("k3::S-Interp-percent"), K("k3::S-Cdata-then-text")]
 S_I18N = [K("k3::S-Translate-name"), K("k3::S-Translate-name-condition"), K("k3::S-Translate-id"), K("k3::S-Translate-empty"),
-          K("k3::S-I18nDomain"), K("k3::S-I18nContext"), K("k3::S-I18nTarget"), K("k3::S-I18nAttributes"), K("k3::S-I18nAttributes-two"),
+          K("k3::S-I18nDomain"), K("k3::S-I18nContext"), K("k3::S-I18nTarget"), K("k3::S-I18nAttributes"), K("k3::S-I18nAttributes-two"), K("k3::S-I18nAttributes-implicit-interp"),
           K("k3::S-Content-translate")]
-S_METAL = [K("k3::S-UseExternal"), K("k3::S-UseExternal-filler-define"), K("k3::S-TemplateBody-slot"), K("k3::S-MacroUseInternal"), K("k3::S-MacroBody"), K("k3::S-TwoMacros"),
+S_METAL = [K("k3::S-UseExternal"), K("k3::S-ExtendMacro"), K("k3::S-UseExternal-filler-define"), K("k3::S-TemplateBody-slot"), K("k3::S-MacroUseInternal"), K("k3::S-MacroBody"), K("k3::S-TwoMacros"),
            K("k3::S-MacroBody-slot-define"),
            K("k3::S-MacroUseInternal-after-expr")]
 K2Q = [K("compiler.py::K2.__quote"), K("compiler.py::K2.__quote@char"), K("compiler.py::K2.__convert"),
@@ -124,7 +125,7 @@ PROPS = {
         "For a dynamic attribute the emitted code is proved to call the escape routine once with the "
         "attribute's own quote character and static text as default, to drop the attribute for None, "
         "and the escape routine itself (K2) maps `default` to the static text as written.",
-        [K("k3::S-Attribute"), K("k3::S-Attribute-quotes"), K("k3::S-Attribute-dict"), K("k3::S-Attribute-dict-first")] + K2Q +
+        [K("k3::S-Attribute"), K("k3::S-Attribute-quotes"), K("k3::S-Attribute-default-under-target"), K("k3::S-Attribute-dict"), K("k3::S-Attribute-dict-first")] + K2Q +
         [U('bounded.units', 'attrs', 'B-ATTR'), U('bounded.units', 'split', 'B-SPLIT'),
          # which static attributes are template-language markup (dropped) and which only look like it
          U('pyvc.spelling', 'unit', 'spelling', needs_k3=True),
@@ -187,12 +188,13 @@ PROPS = {
                   K("template.py::BaseTemplate.write@str"),
                   # whether a tag is reproduced or swallowed depends on its namespace: the scope stack
                   K("parser.py::ElementParser.__init__"), K("parser.py::ElementParser.visit_empty_tag"),
-                  K("parser.py::ElementParser.visit_start_tag"),
+                  K("parser.py::ElementParser.visit_start_tag"), K("zpt/template.py::PageTemplate.parse"),
+                  K("k3::S-Cdata-twice"),
                   U('pyvc.frames', 'tag_nodes_frame', 'visit_element.tag_node_fields'),
                   U('pyvc.regexlang', 'attr_name_unit', 'attr_name.layers_agree'),
                   U('bounded.units', 'verbatim', 'B-VERBATIM'), U('bounded.units', 'attrs', 'B-ATTR')],
         "not_decided": ["match_tag field contracts, visit_Start / visit_Attribute(static) emitters (bounded only)",
-                        "CR/CRLF normalisation in PageTemplate.parse (the XML/HTML decision it depends on is under contract: BaseTemplate.write)",
+                        "the tokenizer recipe regexes beyond TOTAL / TILING (CDATA, end tags: covered by schemas S-Cdata-twice and the bounded B-VERBATIM grammar)",
                         "ElementParser child order"],
         "assumptions": COMMON_ASSUMPTIONS + ["re engine semantics"],
     },
@@ -211,7 +213,11 @@ PROPS = {
                   U('pyvc.frames', 'render_write_frame', 'render.write_frame'),
                   U('pyvc.frames', 'instance_state', 'instance_state'),
                   U('pyvc.frames', 'search_path_frame', 'search_path_frame'),
-                  U('pyvc.ordered', 'unit', 'compile_path.no_set_iteration'), FRESH],
+                  U('pyvc.ordered', 'unit', 'compile_path.no_set_iteration'), FRESH,
+                  # "equal arguments give equal output ... regardless of what was rendered before": what a
+                  # shared loader hands out for a name must not depend on the loader's history
+                  K("loader.py::cache.load"), K("zpt/loader.py::TemplateLoader.load"),
+                  K("loader.py::TemplateLoader.load"), K("parser.py::ElementParser.__init__")],
         "not_decided": ["thread interleavings (schedule-quantified; no schedule exploration in this family)",
                         "cross-process identity of output (follows from alpha-equivalence of generated "
                         "code; not checked yet)"],
@@ -283,7 +289,7 @@ PROPS = {
         "compilation is checked to reject the same template with that token and offset.",
         [K("k3::S-Deferred"), K("k3::S-Deferred-empty"), K("k3::S-Deferred-twice"), K("k3::S-Strict-rejects"),
          K("k3::S-Strict-rejects-pipe-tail"), K("k3::S-Strict-rejects-pipe-middle"),
-         K("k3::S-Strict-rejects-second-macro"),
+         K("k3::S-Strict-rejects-second-macro"), K("zpt/template.py::PageTemplateFile.__init__.post_init"),
          U('pyvc.frames', 'strict_reads_frame', 'strict.reads_frame'),
          U('pyvc.frames', 'strict_identity', 'strict_identity', needs_k3=True),
          U('pyvc.frames', 'cook_error_frame', '_cook.error_frame')],
@@ -294,6 +300,7 @@ PROPS = {
         "text starts with markup characters.",
         [K("k3::S-TextMode"), K("k3::S-TextMode-lt"), K("k3::S-TextMode-endtag"), K("k3::S-Interp-percent"),
          K("k3::S-Interp-braces"), K("zpt/template.py::PageTextTemplateFile.render"),
+         K("zpt/template.py::PageTemplate.parse"),
          K("zpt/loader.py::TemplateLoader.load"), K("loader.py::cache.load"),
          U('bounded.units', 'interp', 'B-INTERP')],
         ["delimiter search of Interpolator.__call__: bounded stand-in B-INTERP only (S-Interp-braces: two instances)"]),
@@ -337,7 +344,7 @@ PROPS = {
                         # the sinks: every schema that inserts a value states which __quote call it goes through
                         K("k3::S-Content"), K("k3::S-Content-translate"), K("k3::S-Attribute"), K("k3::S-Attribute-quotes"), K("k3::S-Attribute-dict-first"),
                         K("k3::S-Interp-text"), K("k3::S-Interp-percent"), K("k3::S-Comment-interp"),
-                        K("k3::S-Cdata-then-text"),
+                        K("k3::S-Cdata-then-text"), K("k3::S-Cdata-twice"),
                         K("k3::S-OnError-keep")],
         "not_decided": ["sinks: which quote/entity each emitted call site passes (decided per schema: S-Content, S-Attribute, S-Interp-*, S-Comment-interp)",
                         "'same elements and attributes as for a harmless value' follows from G1-G3 by "
@@ -357,7 +364,8 @@ PROPS = {
         "units": [K("utils.py::read_bytes"), K("utils.py::detect_encoding"), K("utils.py::read_xml_encoding"),
                   K("template.py::BaseTemplate.write@str"), K("template.py::BaseTemplate.write@bytes"),
                   K("template.py::BaseTemplateFile.read@body"), K("zpt/template.py::PageTextTemplateFile.render"),
-                  U('pyvc.regexlang', 'meta_unit', 're_meta.order'),
+                  K("zpt/template.py::PageTemplate.parse"),
+                  U('pyvc.regexlang', 'meta_unit', 're_meta.order'), U('pyvc.regexlang', 'xml_encoding_unit', 're_encoding.accepts'),
                   U('pyvc.frames', 'render_write_frame', 'render.write_frame')],
         "not_decided": ["PageTemplate.parse itself; package-relative files",
                         "UnicodeEncodeError / LookupError of the output codec in PageTextTemplateFile.render"],
